@@ -1,5 +1,6 @@
 """Per-property decision procedures (DESIGN.md section 5)."""
 from vlib import *
+import os, json
 
 TRUSTED_LZMA = [
     "TLC 1.8 / SANY and the TLA+ modules in /verif/spec (reviewed against the LZMA SDK specification)",
@@ -49,4 +50,91 @@ def plan_C10(res, binary, hooked, tier, seed):
     lzma_layer(res, binary, hooked, tier, seed, "C10", [])
     return ("behaviours of MC_LzmaDecoder under every memory limit of the model (0..D and none); distinct = distinct (bytes, dict, limit)"), TRUSTED_LZMA
 
-PLANS = {"C01": plan_C01, "C08": plan_C08, "C09": plan_C09, "C10": plan_C10}
+TRUSTED_STREAM = [
+    "TLC 1.8 / SANY; Stream.tla (decoder loop of process_mode transcribed branch by branch)",
+    "stream shapes (bytes consumed / produced per symbol, error kinds, clean-coder flags) are computed by the harness reference decoder; they are validated on every run because each recorded execution of the real Stream (return values, phase, tmp fill, partial-buffer fill, committed symbols after every call) must be accepted by TLC against the specification instantiated with that shape",
+    "the one-shot decoder of lzma-rs is the oracle of C05 by the property's own wording",
+]
+
+def implementation_constants(binary):
+    import subprocess, json as _j
+    r = subprocess.run([binary, "constants"], stdout=subprocess.PIPE, text=True)
+    try:
+        c = _j.loads(r.stdout.strip() or "{}")
+    except Exception:
+        c = {}
+    return c
+
+def stream_models(res, binary, hooked, tier, prop):
+    """MC_Stream (scaled, all shapes x all chunkings) and MC_StreamReal (constants read from the code)."""
+    mc = run_tlc("MC_Stream", tq(tier, "MC_Stream_quick.cfg", "MC_Stream_thorough.cfg"), "%s_mcs" % prop,
+                 workers=tq(tier, 12, 14), timeout=tq(tier, 900, 10800), coverage=False)
+    res.add_tlc(mc, "all stream shapes of the bounded family x all compositions into write calls x finish anywhere: EqOneShot, NoZeroProgress, Lag, Progress, BufBounds, Latch, Monotone")
+    c = implementation_constants(binary)
+    if c.get("MaxReq") is None:
+        res.notes["real_constants"] = "hooks unavailable: MC_StreamReal run with the documented constants (20/18/5)"
+        c = {"MaxReq": 20, "TmpMax": 18, "Pre": 5}
+    else:
+        res.notes["real_constants"] = c
+    cfgp = os.path.join(WORK, "MC_StreamReal_%s.cfg" % prop)
+    with open(cfgp, "w") as f:
+        f.write("SPECIFICATION Spec\nCONSTANTS\n  Pre = %d\n  TmpMax = %d\n  MaxReq = %d\n  MaxCost = 20\n"
+                "INVARIANTS EqOneShot NoZeroProgress Lag Progress BufBounds\nPROPERTIES Latch Monotone\nCHECK_DEADLOCK FALSE\n"
+                % (c["Pre"], c["TmpMax"], c["MaxReq"]))
+    mr = run_tlc("MC_StreamReal", cfgp, "%s_mcr" % prop, workers=8, timeout=1200, coverage=False, allow_violation=True)
+    if not mr["ok"]:
+        if mr["rc"] == 124 or "violated" not in (mr["error"] or ""):
+            raise ToolError("MC_StreamReal failed: %s" % mr["error"])
+        # the model instantiated with the implementation's own constants violates the property
+        cex = subprocess_tail(mr["out"])
+        res.violations.append({"property": prop,
+            "desc": "Stream.tla instantiated with the constants read from the implementation %s violates an invariant (%s): model-level counterexample, every symbol may need up to 20 input bytes" % (json.dumps(c), mr["error"]),
+            "case": {"kind": "tlc-counterexample", "constants": c, "trace": cex}})
+    res.add_tlc(mr, "Stream at the real constants read from the implementation, symbols costing up to the format bound of 20 bytes, every chunking")
+
+def subprocess_tail(path):
+    import subprocess
+    return subprocess.run(["sh", "-c", "grep -v '^  ' '%s' | tail -120" % path], stdout=subprocess.PIPE, text=True).stdout
+
+def stream_traces(res, binary, hooked, tier, seed, prop, mode, streams, syms):
+    trace = os.path.join(WORK, "trace_%s.ndjson" % prop)
+    if os.path.exists(trace):
+        os.remove(trace)
+    rep = run_harness(binary, ["stream", "--mode", mode, "--property", prop, "--seed", seed, "--streams", streams,
+                               "--syms", syms, "--trace", trace], "%s_stream" % prop)
+    res.add_harness(rep, "seeded drivers on the real Stream (%s): valid / truncated / bit-flipped / trailing-bytes / header-corrupted streams x chunkings (random, single bytes, header boundaries, inside the most expensive symbols, with empty writes), all decode options" % mode,
+                    counts_as_traces=False)
+    res.evaluations += 0
+    if hooked and os.path.exists(trace):
+        n_events = sum(1 for _ in open(trace))
+        ok, info = validate_trace("Trace_Stream", "Trace_Stream.cfg", trace, "%s_trace" % prop, timeout=tq(tier, 900, 7200))
+        res.add_tlc(info, "trace validation of %d recorded events" % n_events)
+        runs = rep["counters"].get("traced_runs", 0)
+        if ok:
+            res.traces += runs
+        else:
+            # shape-tier only: the contract comparison above decides violations
+            res.drift.append({"desc": "Trace_Stream rejected the recorded execution: %s" % (info.get("reject") or "")[:600]})
+            res.notes["trace_rejected"] = True
+    else:
+        res.notes["trace_validation"] = "skipped (hooks not available in this build)"
+
+def plan_C05(res, binary, hooked, tier, seed):
+    stream_models(res, binary, hooked, tier, "C05")
+    stream_traces(res, binary, hooked, tier, seed, "C05", "c05", tq(tier, 45, 1200), tq(tier, 60, 150))
+    return ("model: every shape x chunking of the bounded families; implementation: seeded (stream, mutation, chunking) runs, each compared with the one-shot decoder on the same bytes and validated event-by-event by TLC; "
+            "distinct = distinct (bytes, cuts, option)"), TRUSTED_STREAM
+
+def plan_C15(res, binary, hooked, tier, seed):
+    stream_models(res, binary, hooked, tier, "C15")
+    stream_traces(res, binary, hooked, tier, seed, "C15", "c15", tq(tier, 60, 1500), tq(tier, 80, 200))
+    return ("valid streams x sampled prefixes (incl. all boundary lengths around header and preamble) x random chunkings with allow_incomplete; sink and finish() output must be prefixes of the full output and contain every symbol that ends 64 bytes before the end of the prefix; "
+            "distinct = distinct (prefix bytes, cuts)"), TRUSTED_STREAM
+
+def plan_C16(res, binary, hooked, tier, seed):
+    stream_models(res, binary, hooked, tier, "C16")
+    stream_traces(res, binary, hooked, tier, seed, "C16", "c16", tq(tier, 80, 2000), tq(tier, 60, 150))
+    return ("call sequences write*/flush*/finish that keep calling after the first failure or after the declared size was reached; "
+            "distinct = distinct (bytes, cuts, option)"), TRUSTED_STREAM
+
+PLANS = {"C01": plan_C01, "C05": plan_C05, "C08": plan_C08, "C09": plan_C09, "C10": plan_C10, "C15": plan_C15, "C16": plan_C16}
